@@ -748,12 +748,23 @@ fn case_borrowed(out: &mut CaseOut, tier: &str, seed: u64, j: u64) {
         2 => ("C07", super::c07::run_case(tier, seed, (j * 7) % super::c07::plan(tier))),
         _ => ("C04", super::c04::run_case(tier, seed, (j * 5) % super::c04::plan(tier))),
     };
-    for (k, n) in inner.obs {
+    for (k, n) in &inner.obs {
         if k.starts_with("note.") || k == "trivial_moves" || k.ends_with("_compactions") {
-            *out.obs.entry(k).or_insert(0) += n;
+            *out.obs.entry(k.clone()).or_insert(0) += *n;
         }
     }
     out.add(&format!("borrowed_cases.{name}"), 1);
+    if name == "C15" {
+        // a call that panics has not returned: on the unchanged tree no damaged image makes any
+        // call panic (C15 itself counts a panic as detection, because nothing wrong was served)
+        let panicked: u64 = inner.obs.iter().filter(|(k, _)| k.ends_with(".detected-by-panic")).map(|(_, n)| *n).sum();
+        if panicked > 0 {
+            let panics = watch::peek_panics();
+            let loc = panics.first().map(|p| watch::short_location(&p.location)).unwrap_or_default();
+            out.violate(format!("C09/call-panicked-on-a-damaged-file/{loc}"), json!({"images_with_a_panicking_call": panicked, "panics": watch::panics_json(&panics)}));
+        }
+        out.add("damaged_images_opened_for_liveness", inner.obs.get("mutated_images").copied().unwrap_or(0));
+    }
     judge_bg_panics(out, "C09");
     if !inner.nontrivial.is_empty() {
         out.nontrivial(format!("borrowed/{name}/{}", inner.nontrivial.iter().next().map(|s| s.chars().take(40).collect::<String>()).unwrap_or_default()));
